@@ -23,6 +23,8 @@ import sys
 import tempfile
 
 VERIF = os.path.dirname(os.path.dirname(os.path.abspath(__file__)))
+# ./check is run from here: a snapshot of /verif (git archive) keeps a long sweep independent of edits made meanwhile
+CHECK_DIR = os.environ.get("VERIF_SNAPSHOT", VERIF)
 PROPS = [json.loads(l) for l in open(os.path.join(VERIF, "properties.jsonl"))]
 
 CMP = {ast.Lt: ast.LtE, ast.LtE: ast.Lt, ast.Gt: ast.GtE, ast.GtE: ast.Gt, ast.Eq: ast.NotEq, ast.NotEq: ast.Eq,
@@ -148,7 +150,7 @@ def run_mutant(rel, src_text, m_id, desc, line, props, jobs):
         env2 = dict(os.environ, PYVC_REPO=tmp, PYVC_OUT=outdir, PYVC_JOBS=str(jobs))
         exits, first = {}, None
         for p in props:
-            rc, out = sh(f"./check {p}", cwd=VERIF, env=env2, timeout=600)
+            rc, out = sh(f"./check {p}", cwd=CHECK_DIR, env=env2, timeout=600)
             exits[p] = rc
             if rc == 1 and first is None:
                 for l in out.splitlines():
